@@ -237,38 +237,44 @@ def nodeLoop (c : Cfg) (nodes : List NodeSt) (r : Req) (cps spn req : Nat) (mpi 
             (it.isLast || decide (it.rem < spn)))
         ((it.offset + 1) % nodes.length)
 
+/-- `cores_per_rank`, at least one -/
+def cpsOf (r : Req) : Nat := if r.cpr = 0 then 1 else r.cpr
+
+/-- the nodes a colocate tag is bound to (`_colo_history`) -/
+def coloOf (s : SchedSt) (r : Req) : Option (List Nat) :=
+  match r.colo with
+  | some tag => (match s.coloHist.find? (fun e => e.1 = tag) with | some e => some e.2 | none => none)
+  | none => none
+
+/-- nodes to leave alone for a new exclusive tag (`_tagged_nodes`) -/
+def skipOf (s : SchedSt) (r : Req) : List Nat :=
+  match r.colo with
+  | some tag =>
+    if (s.coloHist.find? (fun e => e.1 = tag)).isNone ∧ r.excl
+       ∧ s.nodes.length > s.tagged.length then s.tagged else []
+  | none => []
+
+/-- what `schedule_task` does with the outcome of the node loop -/
+def finishTask (s : SchedSt) (r : Req) (it : IterSt) : Except Err (Option (List Slot)) × SchedSt :=
+  if it.rem > 0 then (.ok none, { s with offset := it.offset })
+  else
+    match r.colo with
+    | some tag =>
+      (.ok (some it.alc),
+       { s with offset := it.offset,
+                coloHist := (s.coloHist.filter (fun e => e.1 ≠ tag)) ++ [(tag, it.alc.map (·.node))],
+                tagged := (it.alc.map (·.node)).foldl (fun t n => if n ∈ t then t else t ++ [n]) s.tagged })
+    | none => (.ok (some it.alc), { s with offset := it.offset })
+
 /-- `Continuous.schedule_task`; `.ok none` = `(None, None)` -/
 def scheduleTask (c : Cfg) (s : SchedSt) (r : Req) : Except Err (Option (List Slot)) × SchedSt :=
-  (fun (cps : Nat) =>
-    if cps > c.cpn ∨ r.gpr > c.gpn * 16 ∨ r.lfs > c.lfsPn ∨ r.mem > c.memPn then (.error .assertion, s)
-    else
-      (fun (spn : Nat) (mpi : Bool) (req : Nat) =>
-        if ¬ mpi ∧ req > spn then (.error .value, s)
-        else
-          (fun (colo : Option (List Nat)) (skipTagged : List Nat) =>
-            match nodeLoop c s.nodes r cps spn req mpi colo skipTagged s.nodes.length
-                    { rem := req, offset := s.offset } with
-            | .error (e, off) => (.error e, { s with offset := off })
-            | .ok it   =>
-              if it.rem > 0 then (.ok none, { s with offset := it.offset })
-              else
-                match r.colo with
-                | some tag =>
-                  (.ok (some it.alc),
-                   { s with offset := it.offset,
-                            coloHist := (s.coloHist.filter (fun e => e.1 ≠ tag)) ++ [(tag, it.alc.map (·.node))],
-                            tagged := (it.alc.map (·.node)).foldl (fun t n => if n ∈ t then t else t ++ [n]) s.tagged })
-                | none => (.ok (some it.alc), { s with offset := it.offset }))
-            (match r.colo with
-             | some tag => (match s.coloHist.find? (fun e => e.1 = tag) with | some e => some e.2 | none => none)
-             | none => none)
-            (match r.colo with
-             | some tag =>
-               if (s.coloHist.find? (fun e => e.1 = tag)).isNone ∧ r.excl
-                  ∧ s.nodes.length > s.tagged.length then s.tagged else []
-             | none => []))
-        (slotsPerNode c r cps) (decide (r.ranks > 1)) r.ranks.toNat)
-    (if r.cpr = 0 then 1 else r.cpr)
+  if cpsOf r > c.cpn ∨ r.gpr > c.gpn * 16 ∨ r.lfs > c.lfsPn ∨ r.mem > c.memPn then (.error .assertion, s)
+  else if ¬ decide (r.ranks > 1) ∧ r.ranks.toNat > slotsPerNode c r (cpsOf r) then (.error .value, s)
+  else
+    match nodeLoop c s.nodes r (cpsOf r) (slotsPerNode c r (cpsOf r)) r.ranks.toNat (decide (r.ranks > 1))
+            (coloOf s r) (skipOf s r) s.nodes.length { rem := r.ranks.toNat, offset := s.offset } with
+    | .error (e, off) => (.error e, { s with offset := off })
+    | .ok it          => finishTask s r it
 
 /-! ### `_change_slot_states` -/
 
@@ -579,10 +585,30 @@ def loopIter (c : Cfg) (s : SchedSt) (res : Bool) (it : Iter) : SchedSt × Bool 
     match unscheduleCompleted s2 it.unsched with
     | (s3, r, _) => (s3, (if ¬ res1 ∧ r then true else res1), evs)
 
+/-- the uids `_unschedule_completed` takes off its queue in this iteration -/
+def drained (s : SchedSt) (msgs : List (List Nat)) : List Nat := (drainUnsched (s.unschedQ ++ msgs) []).1
+
+/-- hypothesis on the environment of the scheduler (executor, C07): the release messages name
+    placements that are held, each at most once - what `given` records for the uid is the next
+    placement to be taken out of `held` -/
+def relOK (given held : List (Nat × List Slot)) : List Nat → Bool
+  | []      => true
+  | u :: us =>
+    match given.find? (fun e => e.1 = u) with
+    | some e => decide (e ∈ held) && relOK given (held.erase e) us
+    | none   => false
+
 def runLoop (c : Cfg) : SchedSt → Bool → List Iter → List (List Ev) → SchedSt × Bool × List (List Ev)
   | s, res, [],        acc => (s, res, acc)
   | s, res, it :: its, acc =>
     match loopIter c s res it with
     | (s', res', evs) => runLoop c s' res' its (acc ++ [evs])
+
+/-- `relOK` for the release messages of every iteration along a run -/
+def runOK (c : Cfg) : SchedSt → Bool → List Iter → Bool
+  | _, _,   []        => true
+  | s, res, it :: its =>
+    relOK (loopIterA c s res it).1.given (loopIterA c s res it).1.held (drained (loopIterA c s res it).1 it.unsched)
+    && runOK c (loopIter c s res it).1 (loopIter c s res it).2.1 its
 
 end RPVerif.Sched
